@@ -162,7 +162,6 @@ def check_ring_flag(ctx, rep, RULE="S5"):
     if isinstance(e, ast.Subscript) and isinstance(e.value, ast.Attribute) and isinstance(e.value.value, ast.Name) and e.value.value.id == selfn \
             and isinstance(e.slice, ast.Name) and e.slice.id == src:
         field = e.value.attr
-        ends = [R.posparams[1 + i] for i, p in enumerate(R.posparams[1:]) if p in ("a", "b")] or []
         # endpoints: the parameters used as `src` of the two DirectedBond constructions
         ends = set()
         for n in own_nodes(R.node):
@@ -174,29 +173,31 @@ def check_ring_flag(ctx, rep, RULE="S5"):
                     ends.add(n.args[0].id)
         if len(ends) != 2:
             raise AnalysisError("endpoints of the ring bond built in add_ring_bond not identified (%s)" % sorted(ends))
-        setters = {}
-        for st in R.node.body:          # unconditional (top-level) stores only
-            if isinstance(st, ast.Assign) and isinstance(st.targets[0], ast.Subscript):
-                t = st.targets[0]
-                if isinstance(t.value, ast.Attribute) and t.value.attr == field and isinstance(t.slice, ast.Name) \
-                        and isinstance(st.value, ast.Constant) and st.value.value is True:
-                    setters[t.slice.id] = st
-        # ... or through a helper of the class called unconditionally with the endpoint: self._mark(a)
-        for st in R.node.body:
-            if isinstance(st, ast.Expr) and isinstance(st.value, ast.Call) and isinstance(st.value.func, ast.Attribute) \
-                    and isinstance(st.value.func.value, ast.Name) and st.value.func.value.id == R.posparams[0]:
-                h = cls.methods.get(st.value.func.attr)
-                if h is None:
-                    continue
-                for hs in h.node.body:
-                    if isinstance(hs, ast.Assign) and isinstance(hs.targets[0], ast.Subscript) and isinstance(hs.targets[0].value, ast.Attribute) \
-                            and hs.targets[0].value.attr == field and isinstance(hs.targets[0].slice, ast.Name) \
-                            and isinstance(hs.value, ast.Constant) and hs.value.value is True and hs.targets[0].slice.id in h.posparams:
-                        k = h.posparams.index(hs.targets[0].slice.id) - 1
-                        if 0 <= k < len(st.value.args) and isinstance(st.value.args[k], ast.Name):
-                            setters[st.value.args[k].id] = st
-        missing = sorted(ends - set(setters))
-        rep.ob(RULE, not missing, R.node, R, construct="ring flag %s set in add_ring_bond" % field, how="unconditionally True for both endpoints %s" % sorted(ends),
+        # abstract run of add_ring_bond (private helpers of the class inlined, loops over displays unrolled): on every
+        # normal path the flag of each endpoint is stored True
+        helpers = {m.qual for m in cls.methods.values() if m.name.startswith("_") and not m.name.startswith("__")}
+        stores = []
+
+        class SH(Hooks):
+            def on_store(self, eng, fr, node, base, index, value, st):
+                if not isinstance(index, str) and isinstance(base, Unk) and isinstance(base.term, tuple) and base.term[0] == "attr" \
+                        and base.term[2] == field:
+                    stores.append((node, vkey(index), value, st))
+        eng = Engine(ctx, SH(), inline_methods=helpers)
+        params = {p: Num(Lin.var(("end", p))) for p in ends}
+        fr = eng.run_function(R, params)
+        if not fr.returns:
+            raise AnalysisError("add_ring_bond has no normal path")
+        missing = []
+        for p in sorted(ends):
+            want = vkey(params[p])
+            evs = [(n_, v, st) for n_, k, v, st in stores if k == want and isinstance(v, Con) and v.value is True]
+            for rs, _rv in fr.returns:
+                ra, rl = set(rs.atoms.items()), {(l.key(), op) for l, op in rs.lin}
+                if not any(set(st.atoms.items()) <= ra and {(l.key(), op) for l, op in st.lin} <= rl for _n, _v, st in evs):
+                    missing.append(p)
+                    break
+        rep.ob(RULE, not missing, R.node, R, construct="ring flag %s set in add_ring_bond" % field, how="True for both endpoints %s on every path" % sorted(ends),
                witness=None if not missing else "add_ring_bond does not mark endpoint(s) %s as carrying a ring bond: their chirality is never re-examined "
                "although the decoder moves their ring bond" % missing, nontrivial=True, key="flag-set-both-ends")
         # nobody else sets it True (a non-ring bond or a placeholder must not count), and it starts False
